@@ -26,7 +26,7 @@ RULE = ("base cases: SpecializedRayTracer and BasicRayTracer (dz 2..8) in Antarc
         "max_reflections 0..3), endpoints outside the ice; ice.contains on both exact bounds and one ulp either side for "
         "every shipped ice class; search additionally: caller-owned endpoint buffers modified "
         "after construction, several live tracers solved before any path quantity is read, attenuation call forms (scalar, "
-        "0-d, one-element, list, negative f), evaluation-order independence (same pairs x different ice models in one "
+        "0-d, one-element, list, negative f), arrays handed out by paths modified in place against an untouched twin, evaluation-order independence (same pairs x different ice models in one "
         "process vs a fresh interpreter in reverse order); each base case is re-run under a random rotation about z, a horizontal translation up to 1e5 m and the "
         "swap; a case is non-trivial when the base geometry has at least one solution; distinct = distinct "
         "(tracer, ice, endpoints, motion) tuples")
@@ -238,6 +238,67 @@ def steep_case(run, tracer):
     return d
 
 
+def layered_stack_desc(run):
+    """uniform stack, index-matched (cut) uniform stack, or a stack with a gradient layer above / below the interface"""
+    r = run.rng
+    k = r.choice(["uniform", "cut", "u/a", "a/u", "a/a"])
+    zc = -r.uniform(60, 300)
+    if k == "uniform":
+        layers = [{"type": "u", "n": r.uniform(1.3, 1.5), "range": [zc, 0.0]},
+                  {"type": "u", "n": r.uniform(1.55, 1.9), "range": [zc - r.uniform(100, 400), zc]}]
+    elif k == "cut":
+        n = r.uniform(1.3, 1.9)
+        layers = [{"type": "u", "n": n, "range": [zc, 0.0]}, {"type": "u", "n": n, "range": [zc - r.uniform(100, 400), zc]}]
+    elif k == "u/a":
+        layers = [{"type": "u", "n": r.uniform(1.3, 1.5), "range": [zc, 0.0]}, {"type": "a", "range": [-2850.0, zc]}]
+    elif k == "a/u":
+        layers = [{"type": "a", "range": [zc, 0.0]}, {"type": "u", "n": r.uniform(1.7, 1.8), "range": [-2850.0, zc]}]
+    else:
+        layers = [{"type": "a", "range": [zc, 0.0]}, {"type": "a", "range": [-2850.0, zc]}]
+    return layers, zc
+
+
+def layered_shallow_case(run, tracer):
+    """LAYERED tracer, receiver only slightly deeper / shallower than the source: 0 < |dz| / rho < tan(1 degree)"""
+    r = run.rng
+    d = {"tracer": "layered", "ice": "layered", "flavour": "shallow-angle"}
+    layers, zc = layered_stack_desc(run)
+    bottom = max(layers[-1]["range"][0], -600.0)
+    zA = r.choice([r.uniform(zc + 3, -3), r.uniform(bottom + 5, zc - 3)])
+    rho = 10 ** r.uniform(1.7, 2.8)
+    dz = rho * math.tan(math.radians(r.uniform(0.02, 0.95))) * r.choice([-1, 1])
+    zB = zA + dz
+    for z in (0.0, zc, layers[-1]["range"][0]):
+        if (zA - z) * (zB - z) <= 0 or abs(zB - z) < 0.3:       # keep both in one layer, off the boundaries
+            zB = zA - dz
+    az = r.uniform(0, 2 * math.pi)
+    A = [r.uniform(-500, 500), r.uniform(-500, 500), zA]
+    ang, T, taz = r.uniform(0, 2 * math.pi), 10 ** r.uniform(1, 5), r.uniform(0, 2 * math.pi)
+    d.update(layers=layers, above=r.choice([1, 1.0, 1.1]), below=None, max_reflections=r.choice([0, 1, 2]),
+             A=[float(v) for v in A], B=[A[0] + rho * math.cos(az), A[1] + rho * math.sin(az), float(zB)],
+             c=math.cos(ang), s=math.sin(ang), tx=T * math.cos(taz), ty=T * math.sin(taz))
+    return d
+
+
+def layered_on_interior_case(run, tracer):
+    """LAYERED tracer, source or receiver depth bit-equal to an INTERIOR layer boundary, the other endpoint above or
+    below it (distinct from K23: both endpoints on the boundary at equal depth)"""
+    r = run.rng
+    d = {"tracer": "layered", "ice": "layered", "flavour": "on-interior"}
+    layers, zc = layered_stack_desc(run)
+    bottom = max(layers[-1]["range"][0], -600.0)
+    zo = r.choice([r.uniform(zc + 5, -3), r.uniform(bottom + 5, zc - 5)])
+    rho = max(10 ** r.uniform(1.3, 2.7), 0.15 * abs(zo - zc) + 5.0)
+    az = r.uniform(0, 2 * math.pi)
+    P = [r.uniform(-500, 500), r.uniform(-500, 500), float(zc)]
+    Q = [P[0] + rho * math.cos(az), P[1] + rho * math.sin(az), float(zo)]
+    A, B = (P, Q) if r.random() < 0.5 else (Q, P)
+    ang, T, taz = r.uniform(0, 2 * math.pi), 10 ** r.uniform(1, 5), r.uniform(0, 2 * math.pi)
+    d.update(layers=layers, above=1, below=None, max_reflections=r.choice([0, 1, 1]), A=A, B=B,
+             c=math.cos(ang), s=math.sin(ang), tx=T * math.cos(taz), ty=T * math.sin(taz))
+    return d
+
+
 def intform_case(run, tracer):
     """integer-valued endpoints handed to the tracer as Python ints / int lists / int64 arrays"""
     for attempt in range(50):
@@ -274,6 +335,10 @@ def rand_case(run, tracer, flavour=None):
         return outside_case(run, tracer)
     if flavour == "steep":
         return steep_case(run, tracer)
+    if flavour == "shallow-angle":
+        return layered_shallow_case(run, tracer)
+    if flavour == "on-interior":
+        return layered_on_interior_case(run, tracer)
     r = run.rng
     d = {"tracer": tracer}
     if tracer in ("spec", "basic"):
@@ -428,6 +493,7 @@ def _record(tr, desc):
                  "emitted": fls(p.emitted_direction), "received": fls(p.received_direction), "phi": float(p.phi),
                  "bound": fls(riemann_bound(p)), "noise": cancellation_noise(p),
                  "k3": desc.get("flavour") == "vertical" and float(tr.rho) > 0}
+            s["k3_layered"] = s["k3"] and desc["tracer"] == "layered"
             if s["k3"]:
                 s["noise"] = cancellation_noise(p, at_threshold=True)
             # an endpoint exactly on a bound of a UniformIce gives reflected paths a leg of zero length whose direction is 0/0
@@ -460,6 +526,12 @@ def same_solution(b, o, want_e, want_r, att_tol):
         # < 5e-6), directions are off by up to beta_tolerance / n; count, exists, and these coarse values must still agree
         if not fw.close(b["len"], o["len"], 1e-5, 1e-8 + 25 * E) or not fw.close(b["tof"], o["tof"], 1e-5, 25 * E / L * b["tof"]):
             return "near-vertical path length / tof %r/%r vs %r/%r" % (b["len"], b["tof"], o["len"], o["tof"])
+        if b.get("k3_layered") or o.get("k3_layered"):
+            # the exponential legs of a layered path are exactly vertical in this band and a uniform leg takes all of rho:
+            # its direction is off by up to rho / (its length); only the vertical sense is compared
+            if (o["emitted"][2] > 0) != (want_e[2] > 0) or (o["received"][2] > 0) != (want_r[2] > 0):
+                return "near-vertical vertical sense %s %s, expected %s %s" % (o["emitted"], o["received"], want_e, want_r)
+            return None
         if not vec_close(o["emitted"], want_e, 0.01) or not vec_close(o["received"], want_r, 0.01):
             return "near-vertical directions %s %s, expected %s %s" % (o["emitted"], o["received"], want_e, want_r)
         return None
@@ -595,7 +667,8 @@ def budget(run):
             ("spec", "onbound", run.scale(8, 80)), ("basic", "onbound", run.scale(3, 30)),
             ("layered", "onbound", run.scale(3, 30)), ("uniform", "onbound", run.scale(12, 120)), ("layered", "outside", run.scale(3, 30)),
             ("spec", "outside", run.scale(3, 30)),
-            ("spec", "steep", run.scale(16, 160)), ("basic", "steep", run.scale(5, 50))]
+            ("spec", "steep", run.scale(16, 160)), ("basic", "steep", run.scale(5, 50)),
+            ("layered", "shallow-angle", run.scale(10, 100)), ("layered", "on-interior", run.scale(10, 100))]
 
 
 def correspondence(run):
@@ -1025,6 +1098,14 @@ def oracle_contains(run, deep):
     return True
 
 
+def oracle_returned(run, d):
+    """arrays handed out by the paths of every tracer belong to the caller (raylib.returned_arrays_oracle)"""
+    ice = make_ice(d)
+    run.case(("oracle-returned",) + tuple(sorted((k, str(v)) for k, v in d.items())), nontrivial=True)
+    return raylib.returned_arrays_oracle(run, lambda: make_tracer(d, d["A"], d["B"], ice), d, FREQS,
+                                         which=[run.rng.randint(0, 1)] if d["tracer"] == "layered" else None)
+
+
 def summary(rec):
     if "error" in rec:
         return rec["error"]
@@ -1046,6 +1127,8 @@ def search(run, deep):
         for i in range(m):
             oracle_buffers(run, rand_case(run, tracer))
             oracle_call_forms(run, rand_case(run, tracer))
+            if i < (m + 1) // 2:
+                oracle_returned(run, rand_case(run, tracer))
     for i in range(k):
         oracle_order(run)
 
@@ -1054,6 +1137,8 @@ def replay(run, data):
     kind, inp = data.get("kind", ""), data["input"]
     if kind in ("aliasing", "input-modified"):
         oracle_buffers(run, inp)
+    elif kind == "returned-arrays":
+        oracle_returned(run, {k: v for k, v in inp.items() if k not in ("solution", "modified", "affected")})
     elif kind == "call-forms":
         oracle_call_forms(run, inp)
     elif kind == "boundary-endpoint":
